@@ -517,6 +517,13 @@ pub fn run_part<P: Prop>(opts: &Opts) -> PartReport {
                             {
                                 let p = write_replay::<P>(opts_ref, &js, &sig, &detail);
                                 violations.lock().unwrap().push((p, sig, detail));
+                            } else if let Some((ujs, usig, udetail)) = unshrunk.lock().unwrap().last().cloned() {
+                                // the failure was observed on a completed evaluation but does
+                                // not show again on the shrunk input (an oracle over real time:
+                                // C06, the timed parts of C03 / C07 / C15): report the case as it
+                                // was first found
+                                let p = write_replay::<P>(opts_ref, &ujs, &usig, &format!("{udetail} [not reproduced when re-run: depends on real time]"));
+                                violations.lock().unwrap().push((p, usig, udetail));
                             } else {
                                 local.infra.push(
                                     "shrunk case did not reproduce (flaky oracle?)".to_string(),
